@@ -167,6 +167,36 @@ func orderRules(c *Ctx, pp string) {
 		evalName = "RunExpr"
 	}
 	eval := pk.Func(evalName)
+	// EVAL-ONCE: in no evaluator can one child expression be evaluated by two different evaluation calls on one path
+	if eval != nil {
+		nEv := 0
+		for _, f := range t.PkgFuncs(pp) {
+			byArg := map[string][]*ssa.Call{}
+			allInstrs(f, func(in ssa.Instruction) {
+				if call, ok := in.(*ssa.Call); ok && call.Call.StaticCallee() == eval && len(call.Call.Args) >= 2 {
+					p := path(call.Call.Args[1])
+					if strings.HasPrefix(p, "expr.") || strings.HasPrefix(p, "stmt.") {
+						byArg[p] = append(byArg[p], call)
+					}
+				}
+			})
+			for _, p := range sortedKeys(byArg) {
+				calls := byArg[p]
+				nEv++
+				twice := ""
+				for i := range calls {
+					for j := range calls {
+						if i != j && reachableFrom(calls[i], calls[j]) {
+							twice = fmt.Sprintf("%s and %s", t.Pos(calls[i].Pos()), t.Pos(calls[j].Pos()))
+						}
+					}
+				}
+				r.Ob("ORDER", fmt.Sprintf("%s.%s evaluates %s at most once per path", tag, f.Name(), p), t.Pos(calls[0].Pos()), twice == "",
+					fmt.Sprintf("%d evaluation call(s) of this child; two on one path: %s — an operand with a side effect (a call) would run twice", len(calls), twice))
+			}
+		}
+		r.FloorN(tag+" child evaluations inspected", nEv, 15)
+	}
 	for _, name := range []string{"RunArithmeticExpr", "RunConditionExpr", "RunInExpr"} {
 		f := pk.Func(name)
 		if f == nil || eval == nil {
